@@ -9,54 +9,67 @@
 (*         (NoBranchAdapter) | "timead" (no-branch + push-based: the time    *)
 (*         adapters) | "delay" (ITimeDelayAdapter, pass-through otherwise)   *)
 (*   leaf  "pull" (Input) | "push" (CallbackInput) | "static" (static Input) *)
+(*         | "pushstatic" (static CallbackInput)                              *)
 (*   srcIn / leafIn: the owning component is part of the composition         *)
 (*   unconn: the first consumer has a further input that is left unconnected *)
 EXTENDS FinamBase, TLC
 
 AdKinds == {"pass", "pushb", "nobr", "timead", "delay"}
-LeafKinds == {"pull", "push", "static"}
+LeafKinds == {"pull", "push", "static", "pushstatic"}
 SrcKinds == {"push", "pull", "static"}
 ChainsUpTo(n) == UNION {[1..k -> AdKinds] : k \in 0..n}
 
 NeedsPush(a) == a \in {"pushb", "timead"}
 NoBranch(a) == a \in {"nobr", "timead"}
 
-Topo(src, srcIn, chain, leaf, leafIn, br, chain2, leaf2, unconn) ==
-  [src |-> src, srcIn |-> srcIn, chain |-> chain, leaf |-> leaf, leafIn |-> leafIn,
-   br |-> br, chain2 |-> chain2, leaf2 |-> leaf2, unconn |-> unconn]
+Br(at, ch, leaf) == [at |-> at, chain |-> ch, leaf |-> leaf]
+Topo(src, srcIn, chain, leaf, leafIn, brs, unconn) ==
+  [src |-> src, srcIn |-> srcIn, chain |-> chain, leaf |-> leaf, leafIn |-> leafIn, brs |-> brs, unconn |-> unconn]
 
-(* single chains, every placement; branches with a reduced alphabet *)
+(* single chains with every placement of every adapter kind; one extra branch at every      *)
+(* position; two extra branches (second one from a reduced alphabet, both creation orders) *)
 Single(n) ==
-  {Topo(s, si, ch, lf, li, -1, <<>>, "pull", un) :
-     s \in SrcKinds, si \in BOOLEAN, ch \in ChainsUpTo(n), lf \in LeafKinds, li \in BOOLEAN, un \in BOOLEAN} \ {t \in {Topo(s, FALSE, ch, lf, FALSE, -1, <<>>, "pull", un) : s \in SrcKinds, ch \in ChainsUpTo(n), lf \in LeafKinds, un \in BOOLEAN} : TRUE}
+  {Topo(s, si, ch, lf, li, <<>>, un) :
+     s \in SrcKinds, si \in BOOLEAN, ch \in ChainsUpTo(n), lf \in LeafKinds, li \in BOOLEAN, un \in BOOLEAN}
+  \ {Topo(s, FALSE, ch, lf, FALSE, <<>>, un) : s \in SrcKinds, ch \in ChainsUpTo(n), lf \in LeafKinds, un \in BOOLEAN}
 Branched(n) ==
-  {t \in {Topo(s, TRUE, ch, lf, TRUE, b, c2, l2, FALSE) :
+  {t \in {Topo(s, TRUE, ch, lf, TRUE, <<Br(b, c2, l2)>>, FALSE) :
             s \in SrcKinds, ch \in ChainsUpTo(n), lf \in LeafKinds, b \in 0..n,
-            c2 \in ChainsUpTo(1), l2 \in LeafKinds} : t.br <= Len(t.chain)}
-Cases(n) == Single(n) \cup Branched(n)
+            c2 \in ChainsUpTo(1), l2 \in LeafKinds} : t.brs[1].at <= Len(t.chain)}
+Branched2(n) ==
+  {t \in {Topo(s, TRUE, ch, "pull", TRUE, IF swap THEN <<Br(b2, c3, "pull"), Br(b1, c2, l2)>> ELSE <<Br(b1, c2, l2), Br(b2, c3, "pull")>>, FALSE) :
+            s \in {"push", "pull"}, ch \in ChainsUpTo(n) \ {<<>>}, b1 \in 0..n, c2 \in ChainsUpTo(1), l2 \in {"pull", "push"},
+            b2 \in 0..n, c3 \in {<<>>, <<"pass">>, <<"timead">>, <<"nobr">>}, swap \in BOOLEAN} :
+     \A k \in 1..2 : t.brs[k].at <= Len(t.chain)}
+Cases(n) == Single(n) \cup Branched(n) \cup Branched2(n)
+
+Leaves == {"pull", "push", "static", "pushstatic"}
+IsStaticLeaf(l) == l \in {"static", "pushstatic"}
+IsPushLeaf(l) == l \in {"push", "pushstatic"}
 
 (* the elements between the source and a leaf *)
-Path1(t) == t.chain
-Path2(t) == SubSeq(t.chain, 1, t.br) \o t.chain2
-HasBranch(t) == t.br >= 0
+Path(t, k) == SubSeq(t.chain, 1, t.brs[k].at) \o t.brs[k].chain
+NBr(t) == Len(t.brs)
 
 DeadLink(src, path, leaf) ==
-  src = "pull" /\ ((\E j \in 1..Len(path) : NeedsPush(path[j])) \/ leaf = "push")
-StaticMismatch(src, leaf) == leaf = "static" /\ src # "static"
+  src = "pull" /\ ((\E j \in 1..Len(path) : NeedsPush(path[j])) \/ IsPushLeaf(leaf))
+StaticMismatch(src, leaf) == IsStaticLeaf(leaf) /\ src # "static"
 
 (* the five rules of the statement *)
 RuleUnconnected(t) == t.unconn
-RuleStatic(t) == StaticMismatch(t.src, t.leaf) \/ (HasBranch(t) /\ StaticMismatch(t.src, t.leaf2))
+RuleStatic(t) == StaticMismatch(t.src, t.leaf) \/ \E k \in 1..NBr(t) : StaticMismatch(t.src, t.brs[k].leaf)
 RuleMissing(t) == ~t.srcIn \/ ~t.leafIn
-RuleBranch(t) == HasBranch(t) /\ t.br >= 1 /\ \E j \in 1..t.br : NoBranch(t.chain[j])
-RuleDead(t) == DeadLink(t.src, Path1(t), t.leaf) \/ (HasBranch(t) /\ DeadLink(t.src, Path2(t), t.leaf2))
+(* a node with two or more targets that is, or lies downstream of, a no-branch adapter *)
+FanOutAt(t, k) == Cardinality({x \in 1..NBr(t) : t.brs[x].at = k}) >= 1
+RuleBranch(t) == \E k \in 1..Len(t.chain) : FanOutAt(t, k) /\ \E j \in 1..k : NoBranch(t.chain[j])
+RuleDead(t) == DeadLink(t.src, t.chain, t.leaf) \/ \E k \in 1..NBr(t) : DeadLink(t.src, Path(t, k), t.brs[k].leaf)
 Valid(t) == ~(RuleUnconnected(t) \/ RuleStatic(t) \/ RuleMissing(t) \/ RuleBranch(t) \/ RuleDead(t))
 
 (* number of links Composition.metadata must report: one per arrow *)
-NLinks(t) == (Len(t.chain) + 1) + (IF HasBranch(t) THEN Len(t.chain2) + 1 ELSE 0)
+NLinks(t) == (Len(t.chain) + 1) + SeqSum([k \in 1..NBr(t) |-> Len(t.brs[k].chain) + 1])
 
 (* sanity theorems *)
-ASSUME \A t \in Cases(2) : (t.src = "push" /\ ~HasBranch(t) /\ t.srcIn /\ t.leafIn /\ ~t.unconn /\ t.leaf # "static") => Valid(t)
+ASSUME \A t \in Cases(2) : (t.src = "push" /\ NBr(t) = 0 /\ t.srcIn /\ t.leafIn /\ ~t.unconn /\ ~IsStaticLeaf(t.leaf)) => Valid(t)
 ASSUME \E t \in Cases(2) : RuleBranch(t) /\ ~RuleDead(t) /\ ~RuleStatic(t)
 ASSUME \E t \in Cases(2) : RuleDead(t) /\ ~RuleBranch(t)
 =============================================================================
